@@ -469,6 +469,7 @@ func (e *Eng) eval(st *State, x ast.Expr) *Val {
 		case *types.Map:
 			key := e.coerce(e.eval(st, x.Index), bt.Key())
 			v, _ := e.mapRead(st, bt, base.T, key)
+			v.FromMap = true
 			return v
 		}
 		e.gap("index on %T", bt)
